@@ -1539,6 +1539,23 @@ def convert_from_interleaved(args):
     if nargs % 2 == 1:
         # has output specified
         eq += f"->{''.join(symbol_map[ix] for ix in args[-1])}"
+    else:
+        # implicit output: like numpy, order by the labels themselves, rather
+        # than by the symbols (assigned in order of appearance) they map to
+        counts = collections.Counter(
+            ix for term in inputs for ix in term if ix is not ...
+        )
+        try:
+            output = sorted(ix for ix, c in counts.items() if c == 1)
+        except TypeError:
+            # labels not sortable, fallback to order of appearance
+            output = None
+        if output is not None:
+            if any(ix is ... for term in inputs for ix in term):
+                eq += "->..."
+            else:
+                eq += "->"
+            eq += "".join(symbol_map[ix] for ix in output)
     return eq, arrays
 
 
